@@ -26,6 +26,10 @@ STRUCT = [",, ", "(", ")", " Red (Blue) "]
 DEFS = "(Definition/Acc/#, (Acceleration/#, Red)), (Definition/Plain, (Square))"
 DEFUSE = ["Def/Acc/3 hz", "Def/Acc/3", "Def/Acc/3 m-per-s^2", "(Def-expand/Acc/3 hz, (Acceleration/3 hz, Red))", "Def/Plain/3", "Def/Acc",
           "(Def-expand/Plain, (Circle))", "Def/Plain"]
+# definitions declared INSIDE a sidecar: legal ones, and ones rejected with an error bound to a tag of the definition
+SCDEFS = ["(Definition/Good2, (Red))", "(Definition/Val2/#, (Age/#, Blue))", "(Definition/Nested, (Def/Plain, Blue))",
+          "(Definition/Bad/Ext/#, (Speed/# mph))", "(Definition/Two/#, (Age/#, Item-count/#))", "(Definition/Inner, (Definition/Deep, (Red)))",
+          "(Definition/Good2, (Green))", "(Definition/NoVal/#, (Red))", "(Definition/Exp, ((Def-expand/Plain, (Square)), Blue))"]
 _G = {}
 
 
@@ -155,8 +159,10 @@ def run_case(case):
             return _record(iw, ie, rid, seed)
         if kind == "sidecar":
             out = []
+            sc = None
             for w in (True, False):
-                sc = Sidecar(io.StringIO(json.dumps(case["sidecar"])))
+                if sc is None or not case.get("same_object"):     # same_object: the second validation is of the SAME Sidecar object
+                    sc = Sidecar(io.StringIO(json.dumps(case["sidecar"])))
                 out.append(sc.validate(schema, extra_def_dicts=_G["dd"], error_handler=ErrorHandler(check_for_warnings=w)))
             return _record(out[0], out[1], rid, seed)
         if kind == "table":
@@ -185,6 +191,10 @@ def make_cases(ctx, n):
             sc = {"trial_type": {"HED": cat}, "resp": {"HED": "Label/#, " + compose(rng)}}
             if rng.random() < 0.5:
                 sc["other"] = {"HED": {"x": compose(rng), "y": compose(rng)}}
+            if rng.random() < 0.5:
+                sc["defs"] = {"HED": {"d%d" % j: rng.choice([", ", ","]).join(rng.sample(SCDEFS, rng.randint(1, 2)))
+                                      for j in range(rng.randint(1, 2))}}
+                c["same_object"] = rng.random() < 0.5
             c["sidecar"] = sc
             if kind == "table" and rng.random() < 0.5:
                 # clean, oddly spaced cells with a tag repeated across columns: the row-level issue names a tag of a
